@@ -16,9 +16,9 @@ namespace Bluge.C01
 count, new segment last, root replaced after construction and acknowledged after that; prepareSegment computes its
 obsoletes before the send and waits for `applied` (and for `persisted` iff the batch is safe); `Update` appends the id
 term and the document, `Insert` the document only, `Delete` the id term only -/
-theorem gen_facts_match_model : BlugeGen.C01.derived = expectedDerived := by decide
+theorem gen_facts_match_model : BlugeGen.C01.derived = expectedDerived := by rfl
 
 /-- the statement skeletons (order and nesting of every statement that is not statistics) of the same functions -/
-theorem gen_statements_match_model : BlugeGen.C01.stmts = expectedStmts := by decide
+theorem gen_statements_match_model : BlugeGen.C01.stmts = expectedStmts := by rfl
 
 end Bluge.C01
